@@ -17,3 +17,9 @@ pub mod c15;
 pub mod c06;
 pub mod c08;
 pub mod c07;
+pub mod alloctrack;
+pub mod crashpool;
+
+#[global_allocator]
+static GLOBAL: alloctrack::Tracking = alloctrack::Tracking;
+pub mod c13;
